@@ -720,6 +720,226 @@ class AsyncStream(_InheritStream):
             return {"err": type(e).__name__}
 
 
+# ---------------------------------------------------------------------------------------------
+# assign / capture inside blocks
+def src_aitems(items, capture) -> str:
+    out = []
+    for it in items:
+        k = it[0]
+        if k == "t":
+            out.append(it[1])
+        elif k == "v":
+            out.append("{{ " + it[1] + " }}")
+        elif k == "a":
+            if capture:
+                out.append("{% capture " + it[1] + " %}" + it[2] + "{% endcapture %}")
+            else:
+                out.append("{% assign " + it[1] + " = '" + it[2] + "' %}")
+        elif k == "s":
+            out.append("{{ block.super }}")
+        elif k == "b":
+            out.append("{% block " + it[1] + " %}" + src_aitems(it[2], capture) + "{% endblock %}")
+    return "".join(out)
+
+
+def ablocks(items):
+    out = []
+    for it in items:
+        if it[0] == "b":
+            out.append(it)
+            out += ablocks(it[2])
+    return out
+
+
+def assign_reference(chain, data, leaky: bool):
+    """Reference renders of an assign-chain. leaky=False: every block activation (most-derived definition, super
+    body, directly rendered block) has its own locals — "a block is its own scope". leaky=True: the implementation's
+    rule as read from the code — only the copied context of a most-derived definition is scoped; a super body and a
+    directly rendered block write the locals of the context of the block tag."""
+    direct = len(chain) <= 1
+    defs: dict = {}
+    if not direct:
+        for body in chain:
+            for b in ablocks(body):
+                defs.setdefault(b[1], []).append(b)
+
+    def lookup(frames, x):
+        for f in frames:
+            if x in f:
+                return f[x]
+        return data.get(x, "")
+
+    def go(items, frames, supers, in_copy, depth):
+        out = []
+        for it in items:
+            k = it[0]
+            if k == "t":
+                out.append(it[1])
+            elif k == "v":
+                out.append(lookup(frames, it[1]))
+            elif k == "a":
+                frames[0][it[1]] = it[2]
+            elif k == "s":
+                if supers:
+                    target = frames[1:] if in_copy else frames
+                    if leaky:
+                        out.append(go(supers[0][2], target, supers[1:], False, depth))
+                    else:
+                        out.append(go(supers[0][2], [{}] + target, supers[1:], False, depth))
+            elif k == "b":
+                ds = defs.get(it[1]) or []
+                if ds:
+                    if depth > LIMIT:
+                        raise _Raise("ContextDepthError")
+                    out.append(go(ds[0][2], [{}] + frames, ds[1:], True, depth + 1))
+                elif leaky:
+                    out.append(go(it[2], frames, [], False, depth))
+                else:
+                    out.append(go(it[2], [{}] + frames, [], False, depth))
+        return "".join(out)
+
+    try:
+        return {"ok": go(chain[-1], [{}], [], False, 0)}
+    except _Raise as r:
+        return {"err": r.cls}
+    except RecursionError:
+        return {"err": "<unbounded>"}
+
+
+class AssignStream(Stream):
+    """Which scope do assign/capture inside a block write: every chain of length 1..3 over a pool of bodies, plus
+    random chains; the root ends with probes `{{ x }}{{ y }}` that show what leaked into the base template's scope."""
+
+    name = "assign"
+    parallel = True
+
+    VARS = ["x", "y"]
+
+    def cases(self, ctx):
+        A = lambda x, s: ["a", x, s]
+        Bk = lambda n, body: ["b", n, body]
+        V = lambda x: ["v", x]
+        pool = [
+            [Bk("a", [A("x", "1"), V("x")])],
+            [Bk("a", [["s"], V("x")])],
+            [Bk("a", [A("x", "2"), ["s"], V("x")])],
+            [Bk("a", [["s"], A("x", "3"), V("x")])],
+            [A("x", "0"), Bk("a", [V("x"), A("x", "4"), V("x")])],
+            [Bk("a", [Bk("b", [A("y", "5"), ["s"]]), V("y")])],
+            [Bk("b", [A("y", "6"), V("y")])],
+            [],
+        ]
+        probes = [["t", "|"], V("x"), ["t", ","], V("y"), ["t", "|"]]
+        out = []
+        for n in range(1, ctx.scale(3, 4) + 1):
+            for combo in itertools.product(range(len(pool)), repeat=n):
+                chain = [list(pool[i]) for i in combo]
+                chain[-1] = chain[-1] + probes
+                for cap in (False, True):
+                    out.append({"chain": chain, "data": [["y", "gy"]], "capture": cap})
+        rng = ctx.rng_for("assign")
+        for _ in range(ctx.scale(300, 5000)):
+            out.append(gen_assign_chain(rng, probes))
+        return out
+
+    def impl(self, case):
+        chain = case["chain"]
+        sources = {}
+        for k, body in enumerate(chain):
+            head = "{% extends 't" + str(k + 1) + "' %}" if k < len(chain) - 1 else ""
+            sources[f"t{k}"] = head + src_aitems(body, case["capture"])
+        return render_real(sources, "t0", dict((k, v) for k, v in case["data"]))
+
+    def line(self, case):
+        return ["assign", LIMIT, case["chain"], case["data"]]
+
+    def compare_view(self, case, obs):
+        return {"err": "depth-guard"} if obs.get("err") in DEPTH_CLASSES else obs
+
+    def canon_model(self, case, mobs):
+        return {"err": "depth-guard"} if isinstance(mobs, dict) and mobs.get("err") in DEPTH_CLASSES else mobs
+
+    def oracle(self, case, obs):
+        data = dict((k, v) for k, v in case["data"])
+        ideal = assign_reference(case["chain"], data, leaky=False)
+        if obs == ideal or ideal.get("err") == "<unbounded>" or (obs.get("err") in DEPTH_CLASSES and ideal.get("err") in DEPTH_CLASSES):
+            return None
+        leaky = assign_reference(case["chain"], data, leaky=True)
+        if obs == leaky:
+            kind = "direct" if len(case["chain"]) <= 1 else "super"
+            return (f"assign-leak|{kind}", f"a block is not its own scope: expected {ideal}, got {obs}")
+        return ("assign|output", f"expected {ideal} (or, with the known leak, {leaky}), got {obs}")
+
+    def nontrivial(self, case, obs):
+        return any(it[0] == "a" for body in case["chain"] for b in ablocks(body) for it in b[2])
+
+    def tags(self, case, obs):
+        data = dict((k, v) for k, v in case["data"])
+        ideal = assign_reference(case["chain"], data, leaky=False)
+        return [f"chain{len(case['chain'])}", "capture" if case["capture"] else "assign", "scoped-ok" if obs == ideal else "differs-from-scoped"]
+
+    def shrink_candidates(self, case):
+        from ..core import generic_shrinks
+
+        for cand in generic_shrinks(case["chain"]):
+            if cand and all(_valid_aitems(b) for b in cand):
+                yield {"chain": cand, "data": case["data"], "capture": case["capture"]}
+
+
+def _valid_aitems(items) -> bool:
+    for it in items:
+        if not isinstance(it, list) or not it:
+            return False
+        k = it[0]
+        if k == "t":
+            ok = len(it) == 2 and isinstance(it[1], str) and "{" not in it[1]
+        elif k == "v":
+            ok = len(it) == 2 and bool(_IDENT.match(it[1]))
+        elif k == "a":
+            ok = len(it) == 3 and bool(_IDENT.match(it[1])) and isinstance(it[2], str) and it[2].isalnum()
+        elif k == "s":
+            ok = len(it) == 1
+        elif k == "b":
+            ok = len(it) == 3 and bool(_IDENT.match(it[1])) and isinstance(it[2], list) and _valid_aitems(it[2])
+        else:
+            ok = False
+        if not ok:
+            return False
+    return True
+
+
+def gen_assign_chain(rng, probes):
+    counter = [0]
+
+    def items(avail, depth, in_block):
+        out = []
+        for _ in range(rng.range(1, 4)):
+            r = rng.range(0, 99)
+            counter[0] += 1
+            if r < 20:
+                out.append(["t", f"w{counter[0]}"])
+            elif r < 40:
+                out.append(["v", rng.choice(["x", "y"])])
+            elif r < 62:
+                out.append(["a", rng.choice(["x", "y"]), str(counter[0])])
+            elif r < 80 and in_block:
+                out.append(["s"])
+            elif avail and depth < 3:
+                name = avail.pop(rng.below(len(avail)))
+                out.append(["b", name, items(avail, depth + 1, True)])
+            else:
+                out.append(["v", rng.choice(["x", "y"])])
+        return out
+
+    n = rng.choice([1, 2, 2, 3, 3, 4])
+    chain = []
+    for k in range(n):
+        avail = rng.shuffle(["a", "b", "c"])
+        chain.append(items(avail, 0, False))
+    chain[-1] = chain[-1] + probes
+    return {"chain": chain, "data": [["y", "gy"]] if rng.chance(50) else [], "capture": rng.chance(40)}
+
+
 def nest(names, inner, req=False):
     items = inner
     for n in reversed(names):
@@ -837,4 +1057,4 @@ class EndblockStream(Stream):
 
 
 def streams(ctx):
-    return [PoolStream(), GraphStream(), ChainStream(), SpecStream(), SynStream(), AsyncStream(), DeepStream(), EndblockStream()]
+    return [PoolStream(), GraphStream(), ChainStream(), SpecStream(), SynStream(), AsyncStream(), AssignStream(), DeepStream(), EndblockStream()]
